@@ -30,17 +30,18 @@ ASSUMPTIONS = [
 ]
 DECIDING = ["step:dagger", "step:controlled", "step:power_int", "step:power_frac", "step:exp",
             "hook:dagger", "hook:controlled", "hook:power", "hook:exp", "replace-params", "num_qubits", "params"]
-EXHAUSTIVE = {"pairs_exh": "all 81 ordered pairs of the modifiers {dagger, controlled(1), controlled(2), "
+EXHAUSTIVE = {"k7_targets": "the listed witnesses of known finding K7", "pairs_exh": "all 81 ordered pairs of the modifiers {dagger, controlled(1), controlled(2), "
                            "power(-1), power(0), power(2), power(1/2), power(1/3), exp} on each base gate of a fixed list "
                            "(3 base gates quick / 8 thorough)"}
 BUDGET = {"quick": (4, 30, 700), "thorough": (16, 220, 100000)}
 CASE_TIMEOUT = {"quick": 12, "thorough": 40}
 K1 = "K1-dagger-of-fractional-power"
+K7 = "K7-fractional-power-of-unevaluated-root"
 TOL = 1e-8
 
 
 def classes(tier):
-    return ["builtin", "custom", "custom_structured", "siblings", "symbolic", "replace", "k1_targets", "pairs_exh"]
+    return ["builtin", "custom", "custom_structured", "siblings", "symbolic", "replace", "k1_targets", "k7_targets", "pairs_exh"]
 
 
 # ----------------------------------------------------------------------------- reference
@@ -143,6 +144,20 @@ def _matrix_of(gate):
     return M
 
 
+def _k7_applies(prev_gate, M_prev, exponent, q):
+    """mechanism of K7: the matrix being raised holds unevaluated sympy powers (left by an inner non-integer
+    power) and the discrepancy disappears when those entries are evaluated numerically first"""
+    try:
+        Ms = prev_gate.matrix
+        if not any(e.has(sympy.Pow) for e in Ms):
+            return False
+        R = GC.to_np(Ms.evalf() ** exponent)
+        back = np.linalg.matrix_power(R, q)
+        return L.maxdiff(back, M_prev) <= 1e-6 * max(1.0, float(np.abs(M_prev).max()))
+    except Exception:
+        return False
+
+
 def _sympy_internal(exc):
     """exception raised from inside sympy (not from orquestra code)"""
     tb = exc.__traceback__
@@ -221,7 +236,9 @@ def judge_step(mon, kind, arg, prev_gate, M_prev, new_gate, where):
                 return got
             back = np.linalg.matrix_power(got, q)
             if L.maxdiff(back, M_prev) > 1e-6 * max(1.0, float(np.abs(M_prev).max())):
-                mon.violation("power-frac-matrix", f"({prev_gate}).power(1/{q}): max|R^{q} - M| = {L.maxdiff(back, M_prev):.3e}")
+                known = K7 if _k7_applies(prev_gate, M_prev, arg, q) else None
+                mon.violation("power-frac-matrix", f"({prev_gate}).power(1/{q}): max|R^{q} - M| = {L.maxdiff(back, M_prev):.3e}",
+                              known=known)
                 return None
             name = f"{where}:power_frac" if where == "step" else name
     mon.ok(name)
@@ -574,6 +591,23 @@ def run_case(ctx):
         chain = pre + [("power_frac", 1 / q)] + post
         ctx.describe(f"k1 {base}.{_chain_str(chain)}", True)
         _run_chain(ctx, base, str(base), chain)
+        return
+    if cls == "k7_targets":
+        # keep the known finding K7 observed: a non-integer power of a gate that already carries a non-integer
+        # power (two witnesses, enumerated; slow in sympy, hence only these)
+        from orquestra.quantum import circuits as C
+
+        targets = [("PP", 2, 4), ("ISWAP", 3, 2)] if ctx.quick else [("PP", 2, 4), ("ISWAP", 3, 2), ("PP", 2, 3), ("ISWAP", 3, 3)]
+        if ctx.index >= len(targets):
+            raise Exhausted()
+        name, q1, q2 = targets[ctx.index]
+        if name == "PP":
+            base = C.CustomGateDefinition("PhasePerm", sympy.Matrix([[0, -1], [-1j, 0]]), ())()
+        else:
+            base = C.ISWAP
+        chain = [("power_frac", 1 / q1), ("power_frac", 1 / q2)]
+        ctx.describe(f"k7 {name}.{_chain_str(chain)}", True)
+        _run_chain(ctx, base, name, chain)
         return
     if cls == "pairs_exh":
         nb = 3 if ctx.quick else len(BASES_EXH)
